@@ -137,6 +137,9 @@ func confusions(fixture string) ([]input, error) {
 	repls := []repl{
 		{"int", 17}, {"bool", true}, {"null", nil}, {"list", []any{}}, {"map", map[string]any{}}, {"emptystr", ""},
 		{"intlist", []any{1, 2}}, {"nested", map[string]any{"a": map[string]any{"b": []any{nil}}}}, {"float", 1.5e300},
+		// mappings whose keys are no strings (YAML allows them; decoders yield map[any]any)
+		{"intkeymap", map[any]any{1: "foo"}}, {"boolkeymap", map[any]any{true: "foo"}},
+		{"nullkeymap", map[any]any{nil: "foo"}}, {"mixedkeymap", map[any]any{"a": 1, 2: "b"}},
 	}
 
 	var (
